@@ -855,7 +855,7 @@ MANIFEST = dict(
         "file system; a crash point = any position between two effect events of an enumerated path (loops "
         "unrolled 0/1(/2)). Known finding F8 (collision branch appends history first) is listed in "
         "known_findings.json."),
-    technique="static analysis: syntax-directed CFG path enumeration + typestate over effect events, reaching-definitions provenance",
+    technique="static analysis: syntax-directed CFG path enumeration + typestate over effect events, reaching-definitions provenance; checkpoint table: __init__ / update_for_epoch interpreted against a modelled state directory over every metric history of length 3 and 4 (files held after every completed update = last and best epoch with their own parameters; epoch-less names refused exactly when the best checkpoint would be overwritten)",
     design_ref="DESIGN.md section 4 C16, section 3 G10",
 )
 
